@@ -30,7 +30,8 @@ pub struct GenCfg { pub max_depth: usize, pub lits: Vec<String>, pub vars: Vec<S
 impl GenCfg {
     pub fn default_for(_tb: &[OpSpec]) -> GenCfg {
         GenCfg { max_depth: 5, lits: ["1","2","3","4","5","7","0.5","2.5","10"].iter().map(|s| s.to_string()).collect(),
-                 vars: ["x","y","z","w"].iter().map(|s| s.to_string()).collect(), lit_bias: 5, call_form: false, max_chain: 5 }
+                 // mixed-case names: their byte order (the order of the variable list) differs from their case-insensitive order
+                 vars: ["x","Y","z","W","q","B"].iter().map(|s| s.to_string()).collect(), lit_bias: 5, call_form: false, max_chain: 5 }
     }
 }
 fn bins(tb: &[OpSpec]) -> Vec<usize> { (0..tb.len()).filter(|k| tb[*k].bin.is_some()).collect() }
